@@ -152,6 +152,32 @@ def keyword_calls(src, defs):
     return ast.unparse(tree) + '\n' if changed else src
 
 
+def swap_if_branches(src):
+    """`if c: A else: B` -> `if not c: B else: A` for every two-armed `if`
+    whose else-arm is not an `elif` chain, and the same for conditional
+    expressions."""
+    import ast
+    tree = ast.parse(src)
+
+    class T(ast.NodeTransformer):
+        def visit_If(self, n):
+            self.generic_visit(n)
+            if n.orelse and not (len(n.orelse) == 1 and isinstance(
+                    n.orelse[0], ast.If)):
+                n.test = ast.UnaryOp(op=ast.Not(), operand=n.test)
+                n.body, n.orelse = n.orelse, n.body
+            return n
+
+        def visit_IfExp(self, n):
+            self.generic_visit(n)
+            n.test = ast.UnaryOp(op=ast.Not(), operand=n.test)
+            n.body, n.orelse = n.orelse, n.body
+            return n
+
+    tree = ast.fix_missing_locations(T().visit(tree))
+    return ast.unparse(tree) + '\n'
+
+
 def _transform(dst, how):
     """Whole-tree behaviour-preserving rewrites."""
     import ast
@@ -173,6 +199,8 @@ def _transform(dst, how):
                 new = rename_import_aliases(src)
             elif how == 'kwcalls':
                 new = keyword_calls(src, defs)
+            elif how == 'swapif':
+                new = swap_if_branches(src)
             elif how == 'shift':
                 # push every line down (line numbers change, nothing else)
                 new = '# moved\n' * 7 + src if not src.startswith('#!') else \
@@ -302,7 +330,7 @@ def run_variant(v, repo):
 def run_for_property(prop, repo, seed=0, jobs=None):
     variants = [v for v in load_variants() if v['property'] == prop]
     # two whole-tree behaviour-preserving rewrites for every property
-    for how in ('unparse', 'shift', 'rename', 'alias', 'kwcalls'):
+    for how in ('unparse', 'shift', 'rename', 'alias', 'kwcalls', 'swapif'):
         variants.append({'id': '%s-benign-%s-all' % (prop.lower(), how),
                          'property': prop, 'kind': 'benign', 'edits': [],
                          'transform': how, 'expect': None, 'clears': None,
